@@ -234,6 +234,10 @@ func NewBalDriver(mode string) *BalDriver {
 			// so whoever gets the call through debits the lock account
 			balOp{kind: "balEpochAhead", signer: "S"}, balOp{kind: "balEpochAhead", signer: "A"}, balOp{kind: "balEpochAhead", signer: "M"},
 			balOp{kind: "balEpochAhead", signer: "m0"}, balOp{kind: "balEpochAhead", signer: "C"},
+			// the chain's validators (one of the three committee keys here, as a 1-of-1 account) are not the Alphabet either
+			balOp{kind: "transferX", from: "A", to: "B", amt: bigS("3"), signer: "V"}, balOp{kind: "burn", from: "A", amt: bigS("3"), signer: "V"},
+			balOp{kind: "lock", from: "A", to: "Lnext", amt: bigS("3"), until: 1, signer: "V"}, balOp{kind: "mint", to: "A", amt: bigS("5"), signer: "V"},
+			balOp{kind: "balEpochAhead", signer: "V"}, balOp{kind: "tick", signer: "V", de: 1},
 			balOp{kind: "transfer", from: "A", to: "B", amt: bigS("3"), signer: "M"},
 			// a lock account is nobody's to spend: not its parent's, not a stranger's
 			balOp{kind: "transfer", from: "L1", to: "A", amt: bigS("3"), signer: "to"},
@@ -412,6 +416,8 @@ func (d *BalDriver) Step(x *Exec, n *Node, i int) StepResult {
 		signers = append(signers, w.Comm)
 	case "m0":
 		signers = append(signers, w.Members[0].Hash)
+	case "V":
+		signers = append(signers, w.Validator.ScriptHash())
 	case "nobody":
 	}
 	hasWitness := func(a []byte) bool {
